@@ -6,25 +6,37 @@ import sys
 from . import common
 
 
+def claimed_targets():
+    """Build what the claimed properties need (manifest.d/Cxx.json, key _build), so that a
+    work-in-progress file of an unclaimed property cannot break setup."""
+    import json
+    targets, drivers = [], []
+    for f in sorted(glob.glob(os.path.join(common.VERIF, "manifest.d", "C*.json"))):
+        c = json.load(open(f))
+        b = c.get("_build", {})
+        pid = c["property_id"]
+        targets += [t + "o" for t in b.get("targets", [f"Props/{pid}.v"])]
+        for d in b.get("drivers", [f"Ex{pid}"]):
+            drivers.append((d[2:] if d.startswith("Ex") else d, d))
+    return sorted(set(targets)), drivers
+
+
 def main():
     log = []
     hits = common.forbidden_scan()
     if hits:
         print("forbidden constructs:\n  " + "\n  ".join(hits))
         return 1
-    failed = common.regenerate_gen(log)
-    for k, why in failed.items():
+    targets, drivers = claimed_targets()
+    ok, out = common.coq_make(targets, log, jobs=16, timeout=5400)
+    for k, why in getattr(common.coq_make, "last_translate_failures", {}).items():
         print(f"warning: translator refused {k}: {why}")
-    common.regen_coqproject()
-    ok, out = common.coq_make([], log, jobs=16, timeout=5400)
     if not ok:
         print(out[-3000:])
         print("setup: Coq build failed")
         return 1
     rc = 0
-    for ex in sorted(glob.glob(os.path.join(common.COQ, "Extract", "Ex*.v"))):
-        name = os.path.basename(ex)[:-2]
-        prop = name[2:]
+    for prop, name in drivers:
         ok, out = common.build_driver(prop, log, name)
         if not ok:
             print(out[-2000:])
